@@ -63,7 +63,14 @@ type c12case struct {
 	earlyAt   int    // the device shows a completion prompt after this event (-1 never)
 	earlyMode string // done | abort
 
-	// esc
+	// esc / netinter: the level tree, the level the device starts in, the level asked for
+	tree      string // ios | ios-tcl | junos
+	start     string
+	viaOption bool // netinter: the level is requested with WithPrivilegeLevel (else it is the default desired level)
+	preAcquire bool  // esc / netinter: the level was already acquired once on the same driver before the call under test
+	badOpt     string // inter / netinter: "" | all | channel — an operation option that fails (for every options object / only for the channel's)
+	silentAt  int  // inter: the device never answers this event (-1 never); run with a short per-operation timeout
+	interim   bool // send: the answer ends in an interim prompt passed with WithInterimPromptPattern
 	detour    string // escalation: a prompt of an unrelated level shown (and held) before the outcome's reaction
 	outcome   string // ask | grant | refuse | detour-only
 	secret    string // AuthSecondary
@@ -116,10 +123,12 @@ func c12secret(r *vlib.Rng) string {
 
 func genC12(seed uint64, thorough bool) c12case {
 	r := vlib.NewRng(seed)
-	cs := c12case{seed: seed, thorough: thorough, earlyAt: -1}
+	cs := c12case{seed: seed, thorough: thorough, earlyAt: -1, silentAt: -1, tree: "ios", start: "exec"}
 	switch k := r.Intn(100); {
-	case k < 55:
+	case k < 40:
 		cs.kind = "inter"
+	case k < 58:
+		cs.kind = "netinter"
 	case k < 88:
 		cs.kind = "esc"
 	default:
@@ -157,9 +166,15 @@ func genC12(seed uint64, thorough bool) c12case {
 			}
 		}
 	}
+	if cs.kind == "esc" || cs.kind == "netinter" {
+		c12genEsc(&cs, r)
+	}
 	switch cs.kind {
-	case "inter":
+	case "inter", "netinter":
 		n := r.Range(1, 6)
+		if cs.kind == "netinter" {
+			n = r.Range(1, 4)
+		}
 		prevQ := -1
 		for i := 0; i < n; i++ {
 			var e c12ev
@@ -194,8 +209,18 @@ func genC12(seed uint64, thorough bool) c12case {
 			if q < 0 && e.resp < 0 && r.Chance(1, 3) {
 				e.out = "" // a confirmation that prints nothing
 			}
+			if !e.hidden && e.input != "" && r.Chance(1, 10) {
+				// the caller hides an input the device does echo: no echo read, the echo is consumed
+				// by the read after the return (any position, also the first event)
+				e.hidden, e.devHidden = true, false
+			}
 			prevQ = q
 			cs.events = append(cs.events, e)
+		}
+		if r.Chance(1, 30) {
+			// one event whose output is longer than the default search depth
+			i := r.Intn(n)
+			cs.events[i].out = c12out(r, cs.nl, 6) + strings.Repeat("filler line of output ok"+cs.nl, 44)
 		}
 		switch r.Intn(4) {
 		case 0:
@@ -205,7 +230,9 @@ func genC12(seed uint64, thorough bool) c12case {
 		case 2:
 			cs.complete = []int{facts.C12Index("abortprompt"), facts.C12Index("doneprompt")}
 		}
-		if len(cs.complete) > 0 && n >= 2 && r.Chance(1, 2) {
+		if cs.kind == "netinter" {
+			// the device stays in its level: no completion prompt is ever shown
+		} else if len(cs.complete) > 0 && n >= 2 && r.Chance(1, 2) {
 			cs.earlyAt = r.Intn(n - 1)
 			cs.earlyMode = "done"
 			if len(cs.complete) == 2 && r.Bool() {
@@ -231,8 +258,17 @@ func genC12(seed uint64, thorough bool) c12case {
 				cs.statusLine = true
 			}
 		}
+		if cs.kind == "inter" && !cs.statusLine && cs.earlyAt < 0 && r.Chance(1, 25) {
+			// the device falls silent after an event: the operation must end in its own (short,
+			// per-operation) timeout and nothing further may be typed. Fast transport so that the
+			// dialogue up to there takes a few milliseconds.
+			cs.weird = "silent"
+			cs.silentAt = r.Intn(n)
+			cs.exact = false // (exact matching of an empty input stalls by itself)
+			cs.segClass, cs.readSize, cs.delayUs, cs.pauseUs, cs.setup = 0, 8192, 20, 0, 0 // clean queue: a stale prompt would answer for the device
+		}
 		// out-of-domain twists (never gate the oracle: the Lean side reports dom = 0 for them)
-		if !cs.statusLine && r.Chance(1, 10) {
+		if !cs.statusLine && cs.weird == "" && cs.kind == "inter" && r.Chance(1, 10) {
 			i := r.Intn(n)
 			switch r.Intn(3) {
 			case 0:
@@ -250,6 +286,13 @@ func genC12(seed uint64, thorough bool) c12case {
 				cs.events[i].out = cs.host + "#" + cs.nl + cs.events[i].out
 			}
 		}
+		if cs.tree == "junos" && cs.kind == "netinter" {
+			// the junos shell level's pattern is `^.*[%$]\s?$`: a read that ends right after "100%"
+			// looks like its prompt; keep such words out of these dialogues
+			for i := range cs.events {
+				cs.events[i].out = strings.ReplaceAll(cs.events[i].out, "100%", "100pc")
+			}
+		}
 		for _, e := range cs.events {
 			note(e.out)
 			note(e.pre)
@@ -261,57 +304,12 @@ func genC12(seed uint64, thorough bool) c12case {
 			longest = l
 		}
 	case "esc":
-		cs.secret = c12secret(r)
-		cs.devSecret = cs.secret
-		cs.askText = r.Pick([]string{"Password:", "password:", "Enable password:"})
-		cs.escAuth = true
-		cs.target = "privilege-exec"
-		switch k := r.Intn(100); {
-		case k < 40:
-			cs.outcome = "ask"
-		case k < 58:
-			cs.outcome = "grant"
-		case k < 70:
-			cs.outcome = "refuse"
-		case k < 80:
-			cs.outcome = "ask"
-			cs.devSecret = cs.secret + "!" // the device denies our secret
-			cs.weird = "denied"
-		case k < 88:
-			cs.outcome = "ask"
-			cs.askText = "Password: " // matches one byte before its end: not exact
-			cs.weird = "trailing-space-question"
-		case k < 91:
-			cs.outcome = "ask"
-			cs.askText = "Secret code:" // no pattern matches: the operation times out
-			cs.weird = "unknown-question"
-		case k < 96:
-			cs.outcome = "grant"
-			cs.secret = "" // no secondary secret configured: plain SendInput
-			cs.weird = "no-secret"
-		default:
-			cs.outcome = "grant"
-			cs.escAuth = false
-			cs.weird = "no-escalate-auth"
-		}
-		// in-domain: the device answers the escalate command with the prompt of an unrelated level
-		// (matches the channel's joined prompt pattern, but neither the previous nor the target
-		// level) before asking — or instead of asking
-		if cs.weird == "" && cs.outcome == "ask" && r.Chance(1, 4) {
-			cs.detour = cs.host + "(config)#"
-			cs.statusLine = true
-			if r.Chance(1, 4) {
-				cs.outcome, cs.detour = "detour-only", ""
-			}
-		}
-		if (cs.outcome == "grant" || cs.outcome == "ask" && cs.weird == "") && cs.detour == "" && r.Chance(1, 3) {
-			cs.target = "configuration"
-		}
 		longest = len(cs.host) + 90
 	case "send":
 		cs.cmd = r.Pick([]string{"show version", "show ip interface brief", "x", "ping 10.0.0.1 repeat 2",
 			"show access", "clear counters all", "ping 10.0.0.1 repeat 100", "show process cpu | i sss", "show ip bgp summ"})
 		cs.eager = r.Chance(1, 2)
+		cs.interim = !cs.eager && r.Chance(1, 4)
 		cs.out = c12out(r, cs.nl, maxLines)
 		note(cs.out)
 		if l := len(cs.host) + 4 + len(cs.cmd)*4/3; l > longest {
@@ -322,8 +320,15 @@ func genC12(seed uint64, thorough bool) c12case {
 	if r.Chance(1, 3) {
 		cs.depth = longest + 3 + r.Intn(40)
 	}
-	if cs.kind != "esc" && r.Chance(1, 3) {
+	if cs.weird != "silent" && r.Chance(1, 3) {
 		cs.echoTail = r.Range(1, 2)
+	}
+	if (cs.kind == "netinter" || cs.kind == "esc") && cs.depth < longest+len(cs.host)+40 {
+		cs.depth = longest + len(cs.host) + 40 + r.Intn(40) // prompts of the trees are longer (user@host..., banners)
+	}
+	if (cs.kind == "inter" || cs.kind == "netinter") && cs.weird == "" && !cs.statusLine && r.Chance(1, 40) {
+		cs.weird = "bad-option"
+		cs.badOpt = r.Pick([]string{"all", "channel"})
 	}
 	cs.clean = cs.weird == "" && (cs.setup == 0 || c12staleOK(cs))
 	for _, e := range cs.events {
@@ -331,7 +336,7 @@ func genC12(seed uint64, thorough bool) c12case {
 			cs.clean = false
 		}
 	}
-	if cs.kind == "inter" && cs.exact && cs.weird == "" {
+	if (cs.kind == "inter" || cs.kind == "netinter") && cs.exact && cs.weird == "" {
 		for i, e := range cs.events {
 			if e.input == "" && e.resp >= 0 && !e.hidden && (cs.earlyAt < 0 || i <= cs.earlyAt) {
 				// ReadUntilExplicit of an empty input waits for a chunk the device never sends
@@ -341,6 +346,86 @@ func genC12(seed uint64, thorough bool) c12case {
 		}
 	}
 	return cs
+}
+
+// c12genEsc draws the escalation side of a case (kinds esc and netinter): tree, start and target
+// level, what the device does at the level that wants the secret, and the twists.
+func c12genEsc(cs *c12case, r *vlib.Rng) {
+	cs.tree = []string{"ios", "ios", "ios", "ios-tcl", "junos"}[r.Intn(5)]
+	t := c12treeByName(cs.tree)
+	cs.secret = c12secret(r)
+	cs.devSecret = cs.secret
+	cs.askText = r.Pick([]string{"Password:", "password:", "Enable password:"})
+	if cs.tree == "junos" {
+		cs.askText = r.Pick([]string{"Password:", "password:"})
+	}
+	cs.escAuth = true
+	cs.start = "exec"
+	cs.target = t.authLevel().name
+	switch k := r.Intn(100); {
+	case k < 40:
+		cs.outcome = "ask"
+	case k < 58:
+		cs.outcome = "grant"
+	case k < 70:
+		cs.outcome = "refuse"
+	case k < 80:
+		cs.outcome = "ask"
+		cs.devSecret = cs.secret + "!" // the device denies our secret
+		cs.weird = "denied"
+	case k < 88:
+		cs.outcome = "ask"
+		cs.askText = "Password: " // matches one byte before its end: not exact
+		cs.weird = "trailing-space-question"
+	case k < 91:
+		cs.outcome = "ask"
+		cs.askText = "Secret code:" // no pattern matches: the operation times out
+		cs.weird = "unknown-question"
+	case k < 96:
+		cs.outcome = "grant"
+		cs.secret = "" // no secondary secret configured: plain SendInput
+		cs.weird = "no-secret"
+	default:
+		cs.outcome = "grant"
+		cs.escAuth = false
+		cs.weird = "no-escalate-auth"
+	}
+	if cs.kind == "netinter" && (cs.weird == "trailing-space-question" || cs.weird == "unknown-question") {
+		cs.outcome, cs.askText, cs.weird = "ask", "Password:", ""
+	}
+	// in-domain: the device answers the escalate command with the prompt of an unrelated level
+	// (matches the channel's joined prompt pattern, but neither the previous nor the target
+	// level) before asking — or instead of asking
+	if cs.tree != "junos" && cs.kind == "esc" && cs.weird == "" && cs.outcome == "ask" && r.Chance(1, 4) {
+		cs.detour = cs.host + "(config)#"
+		cs.statusLine = true
+		if r.Chance(1, 4) {
+			cs.outcome, cs.detour = "detour-only", ""
+		}
+	}
+	// other start and target levels: deeper targets, de-escalation, no change at all
+	if cs.detour == "" && cs.outcome != "detour-only" && r.Chance(1, 2) {
+		cs.target = t.lv[r.Intn(len(t.lv))].name
+		if r.Chance(1, 2) {
+			cs.start = t.lv[r.Intn(len(t.lv))].name
+		}
+	}
+	cs.viaOption = r.Bool()
+	cs.preAcquire = r.Chance(1, 5) && cs.weird != "unknown-question" && cs.outcome != "detour-only"
+	if cs.weird == "" && cs.detour == "" && cs.outcome != "detour-only" {
+		switch r.Intn(40) {
+		case 0:
+			// a level the driver does not know at all
+			cs.weird, cs.target, cs.viaOption = "no-such-level", "no-such-level", true
+		case 1:
+			// the device sits in a level the driver has no entry for (its prompt matches the joined
+			// pattern through the configuration pattern, which not-contains then rules out)
+			cs.weird, cs.tree, cs.start, cs.target = "unknown-level", "ios-tcl", "tclsh", "privilege-exec"
+		case 2:
+			// the device prints nothing at all
+			cs.weird, cs.setup, cs.preAcquire = "mute", 0, false
+		}
+	}
 }
 
 // ---------------------------------------------------------------------------------------------
@@ -371,6 +456,7 @@ type c12obs struct {
 	splitEsc bool
 	endMode  string
 	asked    int
+	typed    bool // bad-option sessions: something of the dialogue was written nevertheless
 }
 
 func c12seg(cs c12case) func(int) int {
@@ -461,15 +547,139 @@ func c12sessLine(p *sim.Pipe, depth int, prompt string, ops []c12op) string {
 	return strings.Join(f, " ")
 }
 
-func c12levels() map[string]*network.PrivilegeLevel {
-	P := func(n string) string { return facts.C12Patterns[facts.C12Index(n)].Src }
-	return map[string]*network.PrivilegeLevel{
-		"exec": {Name: "exec", Pattern: P("exec")},
-		"privilege-exec": {Name: "privilege-exec", Pattern: P("privexec"), PreviousPriv: "exec", Deescalate: "disable",
-			Escalate: "enable", EscalateAuth: true, EscalatePrompt: P("enablepass")},
-		"configuration": {Name: "configuration", Pattern: P("configuration"), PreviousPriv: "privilege-exec",
-			Deescalate: "end", Escalate: "configure terminal"},
+// level trees: the fields of network.PrivilegeLevel plus what the device prints as the prompt
+type c12lvl struct {
+	name, prev, esc, deesc string
+	pat, escp              string // names in facts.C12Patterns
+	auth                   bool
+	notContains            []string
+	prompt                 func(host string) string
+	banner                 string
+}
+
+type c12tree struct {
+	name string
+	lv   []c12lvl
+}
+
+func c12treeByName(name string) c12tree {
+	ios := []c12lvl{
+		{name: "exec", pat: "exec", prompt: func(h string) string { return h + ">" }},
+		{name: "privilege-exec", prev: "exec", esc: "enable", deesc: "disable", pat: "privexec", escp: "enablepass", auth: true,
+			prompt: func(h string) string { return h + "#" }},
+		{name: "configuration", prev: "privilege-exec", esc: "configure terminal", deesc: "end", pat: "configuration",
+			prompt: func(h string) string { return h + "(config)#" }, banner: "Enter configuration commands, one per line.  End with CNTL/Z.\n"},
 	}
+	switch name {
+	case "ios-tcl":
+		ios[2].notContains = []string{"tcl)"}
+		ios = append(ios, c12lvl{name: "tclsh", prev: "privilege-exec", esc: "tclsh", deesc: "tclquit", pat: "tclsh",
+			prompt: func(h string) string { return h + "(tcl)#" }})
+		return c12tree{name, ios}
+	case "junos":
+		return c12tree{name, []c12lvl{
+			{name: "exec", pat: "jexec", prompt: func(h string) string { return "user@" + h + ">" }},
+			{name: "configuration", prev: "exec", esc: "configure", deesc: "exit configuration-mode", pat: "jconf",
+				prompt: func(h string) string { return "user@" + h + "#" }, banner: "Entering configuration mode\n"},
+			{name: "shell", prev: "exec", esc: "start shell", deesc: "exit", pat: "jshell", notContains: []string{"root"},
+				prompt: func(h string) string { return "user@" + h + "%" }},
+			{name: "root-shell", prev: "exec", esc: "start shell user root", deesc: "exit", pat: "jroot", escp: "jpass", auth: true,
+				prompt: func(h string) string { return "root@" + h + ":~ #" }},
+		}}
+	}
+	return c12tree{"ios", ios}
+}
+
+func (t c12tree) level(name string) *c12lvl {
+	for i := range t.lv {
+		if t.lv[i].name == name {
+			return &t.lv[i]
+		}
+	}
+	return nil
+}
+
+func (t c12tree) authLevel() *c12lvl {
+	for i := range t.lv {
+		if t.lv[i].auth {
+			return &t.lv[i]
+		}
+	}
+	return nil
+}
+
+func (t c12tree) privLevels(escAuth bool) map[string]*network.PrivilegeLevel {
+	P := func(n string) string {
+		if n == "" {
+			return ""
+		}
+		return facts.C12Patterns[facts.C12Index(n)].Src
+	}
+	m := map[string]*network.PrivilegeLevel{}
+	for _, l := range t.lv {
+		m[l.name] = &network.PrivilegeLevel{Name: l.name, Pattern: P(l.pat), NotContains: l.notContains, PreviousPriv: l.prev,
+			Deescalate: l.deesc, Escalate: l.esc, EscalateAuth: l.auth && escAuth, EscalatePrompt: P(l.escp)}
+	}
+	return m
+}
+
+func (t c12tree) devLevels(host string) []sim.EscLevel {
+	var out []sim.EscLevel
+	for _, l := range t.lv {
+		out = append(out, sim.EscLevel{Name: l.name, Prompt: l.prompt(host), Prev: l.prev, Escalate: l.esc, Deescalate: l.deesc,
+			Auth: l.auth, Banner: l.banner})
+	}
+	return out
+}
+
+// joined is the network driver's channel prompt pattern: the alternation of all level patterns
+func (t c12tree) joined() string {
+	var is []int
+	for _, l := range t.lv {
+		is = append(is, facts.C12Index(l.pat))
+	}
+	return c12idx(is)
+}
+
+// c12expectAcquire is the specification of AcquirePriv on a tree device: walk from the start
+// level to the target along the tree (down to the common ancestor, then up), the hop into the
+// level that asks for the secret being subject to the device's outcome.
+func c12expectAcquire(cs c12case, t c12tree) (end, err string) {
+	cur := cs.start
+	switch cs.weird {
+	case "no-such-level", "unknown-level":
+		return cur, "privilege"
+	case "mute":
+		return cur, "timeout"
+	}
+	for n := 0; n < 20; n++ {
+		if cur == cs.target {
+			return cur, "nil"
+		}
+		child := ""
+		for x := cs.target; x != ""; x = t.level(x).prev {
+			if t.level(x).prev == cur {
+				child = x
+				break
+			}
+		}
+		if child == "" {
+			cur = t.level(cur).prev
+			continue
+		}
+		if t.level(child).auth {
+			switch {
+			case cs.outcome == "refuse" || cs.weird == "denied":
+				return cur, "privilege"
+			case cs.outcome == "detour-only":
+				return "configuration", "timeout"
+			case cs.weird == "unknown-question":
+				return cur, "timeout"
+			}
+		}
+		cur = child
+	}
+	return cur, "privilege"
 }
 
 // operations that are expected to run into their timeout get a short one; all others a generous
@@ -512,13 +722,32 @@ func c12staleOK(cs c12case) bool {
 	return !c12subseq(first, stale+first[:len(first)-1])
 }
 
+// c12badOption is an operation option that fails: for every options object ("all") or only when it
+// is applied to the channel's operation options ("channel").
+func c12badOption(kind string) util.Option {
+	return func(o interface{}) error {
+		if kind == "all" {
+			return util.ErrBadOption
+		}
+		if _, ok := o.(*channel.OperationOptions); ok {
+			return util.ErrBadOption
+		}
+		return util.ErrIgnoredOption
+	}
+}
+
 // c12hold is how long a device keeps back the rest of its reaction after a status line: long
 // against the read delay (an implementation that stops at the status line types ahead well within
 // it), short against the operation timeout
 const c12hold = 4 * time.Millisecond
 
+// c12silentTimeout is the per-operation timeout of the sessions whose device falls silent: two
+// orders of magnitude above what the dialogue up to the silence takes on the fast transport those
+// sessions use, far below the driver-level timeout
+const c12silentTimeout = 500 * time.Millisecond
+
 func c12timeout(cs c12case) time.Duration {
-	if cs.weird == "unknown-question" || cs.outcome == "detour-only" {
+	if cs.weird == "unknown-question" || cs.outcome == "detour-only" || cs.weird == "mute" {
 		return 150 * time.Millisecond // stalls right after the escalate command: a few bytes in
 	}
 	return 3 * time.Second
@@ -552,10 +781,16 @@ func runC12case(cs c12case) (o c12obs) {
 				if i == cs.earlyAt {
 					st.Ask, st.NextMode, st.Hidden = "", cs.earlyMode, false
 				}
+				if i == cs.silentAt {
+					st = sim.DlgStep{Silent: true}
+				}
 				script = append(script, st)
 			}
 		} else {
 			script = []sim.DlgStep{{Out: cs.out, NextMode: "exec"}}
+			if cs.interim {
+				script[0].Ask = "..." // the device waits for more input: an interim prompt, not the prompt
+			}
 		}
 		dev := sim.NewDialogue("exec", prompts, script)
 		dev.NL = cs.nl
@@ -592,6 +827,13 @@ func runC12case(cs c12case) (o c12obs) {
 		if cs.exact {
 			opOpts = append(opOpts, opoptions.WithExactMatchInput())
 		}
+		switch {
+		case cs.silentAt >= 0:
+			// the operation's own timeout, far below the driver's
+			opOpts = append(opOpts, opoptions.WithTimeoutOps(c12silentTimeout))
+		case cs.seed%4 == 0:
+			opOpts = append(opOpts, opoptions.WithTimeoutOps(c12timeout(cs)))
+		}
 		if cs.kind == "inter" {
 			var evs []*channel.SendInteractiveEvent
 			for _, e := range cs.events {
@@ -608,6 +850,9 @@ func runC12case(cs c12case) (o c12obs) {
 				}
 				opOpts = append(opOpts, opoptions.WithCompletePatterns(cp))
 			}
+			if cs.badOpt != "" {
+				opOpts = append(opOpts, c12badOption(cs.badOpt))
+			}
 			r, err := d.SendInteractive(evs, opOpts...)
 			op.err = errClass(err)
 			if err == nil {
@@ -617,6 +862,10 @@ func runC12case(cs c12case) (o c12obs) {
 			opOpts = append(opOpts, opoptions.WithNoStripPrompt())
 			if cs.eager {
 				opOpts = append(opOpts, opoptions.WithEager())
+			}
+			if cs.interim {
+				opOpts = append(opOpts, opoptions.WithInterimPromptPattern([]*regexp.Regexp{
+					regexp.MustCompile(facts.C12Patterns[facts.C12Index("interim")].Src)}))
 			}
 			b, err := d.Channel.SendInput(cs.cmd, opOpts...)
 			op.err = errClass(err)
@@ -634,6 +883,13 @@ func runC12case(cs c12case) (o c12obs) {
 			for _, w := range dev.Writes[w0:] {
 				op.impl = append(op.impl, w.Data)
 			}
+			if cs.badOpt != "" {
+				// the operation must fail before anything is written: it is not part of the model's session
+				o.typed = len(dev.Writes) > w0
+				o.main = -1
+				o.line = c12sessLine(dev.Pipe, cs.depth, "d", o.ops)
+				return
+			}
 			if cs.kind == "inter" {
 				op.tokens = []string{"inter", b2s(cs.exact), c12idx(cs.complete), strconv.Itoa(len(cs.events))}
 				for _, e := range cs.events {
@@ -644,15 +900,31 @@ func runC12case(cs c12case) (o c12obs) {
 					op.tokens = append(op.tokens, vlib.Hex([]byte(e.input)), rs, b2s(e.hidden))
 				}
 			} else {
-				op.tokens = []string{"send", b2s(cs.exact), b2s(cs.eager), vlib.Hex([]byte(cs.cmd))}
+				im := "."
+				if cs.interim {
+					im = strconv.Itoa(facts.C12Index("interim"))
+				}
+				op.tokens = []string{"send", b2s(cs.exact), b2s(cs.eager), im, vlib.Hex([]byte(cs.cmd))}
 			}
 			o.ops = append(o.ops, op)
 			o.main = len(o.ops) - 1
 			o.line = c12sessLine(dev.Pipe, cs.depth, "d", o.ops)
 		})
-	case "esc":
+	case "esc", "netinter":
+		t := c12treeByName(cs.tree)
 		dev := sim.NewEscDevice(cs.host, cs.outcome, cs.devSecret, cs.askText)
+		dev.Tree = t.devLevels(cs.host)
+		dev.CLI.Mode = cs.start
+		dev.Mute = cs.weird == "mute"
 		dev.Detour, dev.Hold = cs.detour, c12hold
+		dev.EchoTail, dev.EchoHold = cs.echoTail, c12hold
+		for i, e := range cs.events {
+			st := sim.DlgStep{Out: e.out, Ask: e.ask, Pre: e.pre, Hold: c12hold}
+			if i+1 < len(cs.events) {
+				st.Hidden = cs.events[i+1].devHidden
+			}
+			dev.Script = append(dev.Script, st)
+		}
 		dev.NL = cs.nl
 		dev.EchoWrap = cs.wrap
 		dev.Seg = c12seg(cs)
@@ -660,10 +932,27 @@ func runC12case(cs c12case) (o c12obs) {
 		if cs.setup != 0 {
 			dev.Start()
 		}
-		lv := c12levels()
-		lv["privilege-exec"].EscalateAuth = cs.escAuth
-		opts := append([]util.Option{options.WithCustomTransport(dev), options.WithPrivilegeLevels(lv),
-			options.WithDefaultDesiredPriv("privilege-exec"), options.WithAuthSecondary(cs.secret)}, commonOpts()...)
+		desired := cs.target
+		var opOpts []util.Option
+		if cs.kind == "netinter" && cs.viaOption {
+			// the default desired level is another one; the operation asks for its own
+			desired = cs.start
+			opOpts = append(opOpts, opoptions.WithPrivilegeLevel(cs.target))
+		}
+		drvTree := t
+		if cs.weird == "unknown-level" {
+			drvTree = c12tree{t.name, nil}
+			for _, l := range t.lv {
+				if l.name != "tclsh" {
+					drvTree.lv = append(drvTree.lv, l)
+				}
+			}
+		}
+		if drvTree.level(desired) == nil {
+			desired = "exec"
+		}
+		opts := append([]util.Option{options.WithCustomTransport(dev), options.WithPrivilegeLevels(drvTree.privLevels(cs.escAuth)),
+			options.WithDefaultDesiredPriv(desired), options.WithAuthSecondary(cs.secret)}, commonOpts()...)
 		d, err := network.NewDriver("h", opts...)
 		if err != nil {
 			o.fatal = "new:" + err.Error()
@@ -673,18 +962,57 @@ func runC12case(cs c12case) (o c12obs) {
 			o.fatal = "open:" + errClass(err)
 			return o
 		}
-		o.err = errClass(d.AcquirePriv(cs.target))
+		var mainOp c12op
+		if cs.preAcquire {
+			_ = d.AcquirePriv(cs.target) // history: the level was acquired (or not) once before
+		}
+		if cs.kind == "esc" {
+			o.err = errClass(d.AcquirePriv(cs.target))
+		} else {
+			var evs []*channel.SendInteractiveEvent
+			for _, e := range cs.events {
+				ev := &channel.SendInteractiveEvent{ChannelInput: e.input, HideInput: e.hidden}
+				if e.resp >= 0 {
+					ev.ChannelResponse = facts.C12Patterns[e.resp].Src
+				}
+				evs = append(evs, ev)
+			}
+			if cs.exact {
+				opOpts = append(opOpts, opoptions.WithExactMatchInput())
+			}
+			if len(cs.complete) > 0 {
+				var cp []*regexp.Regexp
+				for _, i := range cs.complete {
+					cp = append(cp, regexp.MustCompile(facts.C12Patterns[i].Src))
+				}
+				opOpts = append(opOpts, opoptions.WithCompletePatterns(cp))
+			}
+			if cs.badOpt != "" {
+				opOpts = append(opOpts, c12badOption(cs.badOpt))
+			}
+			r, err := d.SendInteractive(evs, opOpts...)
+			o.err = errClass(err)
+			if err == nil {
+				mainOp.result, mainOp.hasRes = r.Result, true
+			}
+		}
 		_ = d.Close()
 		dev.Snapshot(func() {
 			snapshot(dev.Pipe, dev.CLI)
 			o.wstates = append([]sim.WriteState{}, dev.WriteStates...)
 			o.lstates = append([]sim.WriteState{}, dev.LineStates...)
 			o.asked = dev.Asked
-			// split the session's writes into operations: a lone return is a GetPrompt; an escalate
+			o.main = -1
+			// split the session's writes into operations: a lone return is a GetPrompt; a level
 			// command starts an operation that owns the following return and, if present, the secret
-			// and its return
+			// and its return; anything else starts the interactive operation, which owns the rest
 			ws := dev.Writes
-			allIdx := c12idx([]int{facts.C12Index("exec"), facts.C12Index("privexec"), facts.C12Index("configuration")})
+			idx := func(n string) string {
+				if n == "" {
+					return "-"
+				}
+				return strconv.Itoa(facts.C12Index(n))
+			}
 			for i := 0; i < len(ws); {
 				data := string(ws[i].Data)
 				if data == "\n" {
@@ -693,12 +1021,50 @@ func runC12case(cs c12case) (o c12obs) {
 					continue
 				}
 				var op c12op
+				var lvl *c12lvl
+				deesc := false
+				for k := range t.lv {
+					if t.lv[k].esc != "" && t.lv[k].esc == data {
+						lvl = &t.lv[k]
+					}
+				}
+				if lvl == nil {
+					for k := range t.lv {
+						if t.lv[k].deesc != "" && t.lv[k].deesc == data {
+							lvl, deesc = &t.lv[k], true
+						}
+					}
+				}
+				if lvl == nil && cs.badOpt != "" {
+					o.typed = true
+					break
+				}
+				if lvl == nil {
+					// the interactive operation
+					op = mainOp
+					op.kind, op.w0, op.w1 = "inter", i, len(ws)
+					for _, w := range ws[i:] {
+						op.impl = append(op.impl, w.Data)
+					}
+					op.tokens = []string{"inter", b2s(cs.exact), c12idx(cs.complete), strconv.Itoa(len(cs.events))}
+					for _, e := range cs.events {
+						rs := "-"
+						if e.resp >= 0 {
+							rs = strconv.Itoa(e.resp)
+						}
+						op.tokens = append(op.tokens, vlib.Hex([]byte(e.input)), rs, b2s(e.hidden))
+					}
+					op.err = o.err
+					o.ops = append(o.ops, op)
+					o.main = len(o.ops) - 1
+					break
+				}
 				op.kind = "esc"
 				op.w0 = i
 				j := i + 1
 				if j < len(ws) && string(ws[j].Data) == "\n" {
 					j++
-					if data == "enable" && cs.secret != "" && j < len(ws) && string(ws[j].Data) == cs.secret {
+					if !deesc && lvl.auth && cs.secret != "" && j < len(ws) && string(ws[j].Data) == cs.secret {
 						j++
 						if j < len(ws) && string(ws[j].Data) == "\n" {
 							j++
@@ -709,22 +1075,20 @@ func runC12case(cs c12case) (o c12obs) {
 				for _, w := range ws[op.w0:op.w1] {
 					op.impl = append(op.impl, w.Data)
 				}
-				switch data {
-				case "enable":
-					op.tokens = []string{"esc", strconv.Itoa(facts.C12Index("exec")), strconv.Itoa(facts.C12Index("privexec")),
-						strconv.Itoa(facts.C12Index("enablepass")), b2s(cs.escAuth), vlib.Hex([]byte("enable")), vlib.Hex([]byte(cs.secret))}
-				default:
-					op.tokens = []string{"esc", strconv.Itoa(facts.C12Index("privexec")), strconv.Itoa(facts.C12Index("configuration")),
-						"-", "0", vlib.Hex(ws[i].Data), "-"}
+				if !deesc && lvl.auth {
+					op.tokens = []string{"esc", idx(t.level(lvl.prev).pat), idx(lvl.pat), idx(lvl.escp), b2s(cs.escAuth),
+						vlib.Hex(ws[i].Data), vlib.Hex([]byte(cs.secret))}
+				} else {
+					op.tokens = []string{"esc", idx(t.lv[0].pat), idx(lvl.pat), "-", "0", vlib.Hex(ws[i].Data), "-"}
 				}
 				op.err = "nil"
 				o.ops = append(o.ops, op)
 				i = j
 			}
-			if len(o.ops) > 0 && o.err == "timeout" {
+			if o.main < 0 && len(o.ops) > 0 && o.err == "timeout" {
 				o.ops[len(o.ops)-1].err = "timeout"
 			}
-			o.line = c12sessLine(dev.Pipe, cs.depth, allIdx, o.ops)
+			o.line = c12sessLine(dev.Pipe, cs.depth, drvTree.joined(), o.ops)
 		})
 	}
 	return o
@@ -791,7 +1155,7 @@ func c12join(bs [][]byte) string {
 
 func runC12(c *ctx) {
 	res := c.res
-	res.Rule = "sessions of the real drivers over causal dialogue devices: generic.Driver.SendInteractive with 1-6 events (visible/hidden, with/without expected response, early completion through complete patterns, completion pattern after the last event), network.Driver.AcquirePriv against an IOS-like device that asks / grants / refuses / denies / asks with a trailing space / asks something unknown (plus no secret configured, escalate-auth off, two-hop targets), and plain Channel.SendInput eager / not eager; segmentations whole/1-byte/fixed/random, read sizes 1..65536, read delays, transport delivery pauses, CRLF, wrapped echo, exact/fuzzy input matching, search depths from longest line+3 to 1000. non-trivial = in-domain (every read of the operation ended exactly at the end of what the device had printed) case with >= 2 events, or an escalation, or a plain send; distinct by case seed"
+	res.Rule = "sessions of the real drivers over causal dialogue devices: generic.Driver.SendInteractive with 1-6 events (visible/hidden in every order incl. inputs the caller hides but the device echoes, with/without expected response, early completion through complete patterns, completion pattern after the last event, prompt-like status lines held before the expected response, a device that falls silent under a per-operation timeout, rejected operation options); network.Driver.SendInteractive with and without WithPrivilegeLevel over three level trees (IOS, IOS+tclsh with not-contains, junos-like with shell/root-shell) from every start level to every target level (escalation with password question, de-escalation, no change, level acquired before, unknown / non-existent level, mute device); network.Driver.AcquirePriv on the same trees against a device that asks / grants / refuses / denies / asks with a trailing space / asks something unknown / shows an unrelated level first (plus no secret configured, escalate-auth off); plain Channel.SendInput eager / not eager / with an interim prompt; outputs beyond the search depth; segmentations whole/1-byte/fixed/random, read sizes 1..65536, read delays, transport delivery pauses, echo tail held back, CRLF, wrapped echo, exact/fuzzy input matching, search depths from longest line+3 to 1000, clean / stale / shifted queue at the start. non-trivial = in-domain (every read of the operation ended exactly at the end of what the device had printed) case with >= 2 events, or an escalation, or a plain send; distinct by case seed"
 	if c.replay != "" {
 		f := strings.Fields(c.replay)
 		if len(f) >= 2 && f[0] == "c12case" {
@@ -875,9 +1239,42 @@ func c12rxDiff(c *ctx, r *vlib.Rng, per int) {
 	c.res.Note("C12 pattern table (%d patterns) diffed against Go regexp on %d subjects", len(facts.C12Patterns), len(lines))
 }
 
+// c12askParallel runs the model driver on slices of the request lines concurrently (the replay of a
+// long dialogue costs the model far more than the session cost the implementation).
+func c12askParallel(c *ctx, lines []string) []string {
+	k := vlib.Conc(8)
+	if k < 1 {
+		k = 1
+	}
+	if len(lines) < 2*k {
+		return c.ask(lines)
+	}
+	out := make([]string, len(lines))
+	var wg sync.WaitGroup
+	for p := 0; p < k; p++ {
+		wg.Add(1)
+		go func(p int) {
+			defer wg.Done()
+			var idx []int
+			var part []string
+			for i := p; i < len(lines); i += k {
+				idx = append(idx, i)
+				part = append(part, lines[i])
+			}
+			ans := c.ask(part)
+			for j, i := range idx {
+				out[i] = ans[j]
+			}
+		}(p)
+	}
+	wg.Wait()
+	return out
+}
+
 func c12check(c *ctx, cases []c12case) {
 	res := c.res
 	obs := make([]c12obs, len(cases))
+	tRun := time.Now()
 	var wg sync.WaitGroup
 	sem := make(chan struct{}, vlib.Conc(16))
 	for i := range cases {
@@ -890,15 +1287,18 @@ func c12check(c *ctx, cases []c12case) {
 		}(i)
 	}
 	wg.Wait()
+	res.Distribution["sessions-ms"] += int(time.Since(tRun) / time.Millisecond)
 	var lines []string
 	var refs []int
 	for i := range obs {
-		if obs[i].line != "" && obs[i].fatal == "" {
+		if obs[i].line != "" && obs[i].fatal == "" && len(obs[i].ops) > 0 {
 			lines = append(lines, obs[i].line)
 			refs = append(refs, i)
 		}
 	}
-	ans := c.ask(lines)
+	tAsk := time.Now()
+	ans := c12askParallel(c, lines)
+	res.Distribution["model-ms"] += int(time.Since(tAsk) / time.Millisecond)
 	answers := map[int]string{}
 	for k, i := range refs {
 		answers[i] = ans[k]
@@ -947,6 +1347,9 @@ func c12check(c *ctx, cases []c12case) {
 			}
 		}
 		parts := strings.Split(answers[i], " | ")
+		if len(o.ops) == 0 {
+			parts = nil // nothing was written at all: nothing to replay
+		}
 		if len(parts) != len(o.ops) {
 			res.Case(key, false)
 			res.Fail("machinery", caseLine, fmt.Sprintf("driver answered %q for %d operations ; request %s", answers[i], len(o.ops), o.line), "driver")
@@ -1028,6 +1431,55 @@ func c12check(c *ctx, cases []c12case) {
 		}
 		nontriv := allDom && okAll && (cs.kind != "inter" || len(cs.events) >= 2)
 		res.Case(key, nontriv)
+		res.Count(fmt.Sprintf("exact:%v", cs.exact))
+		res.Count(fmt.Sprintf("echo wrapped:%v tail-held:%v", cs.wrap > 0, cs.echoTail > 0))
+		if cs.kind == "inter" || cs.kind == "send" {
+			res.Count(fmt.Sprintf("per-op-timeout-option:%v", cs.silentAt >= 0 || cs.seed%4 == 0))
+		}
+		if cs.kind == "inter" || cs.kind == "netinter" {
+			res.Count(fmt.Sprintf("events:%d", len(cs.events)))
+			early := "none"
+			switch {
+			case cs.earlyAt >= 0 && cs.earlyAt < len(cs.events)-1:
+				early = "cuts-short"
+			case cs.earlyAt >= 0:
+				early = "after-last-event"
+			}
+			res.Count(fmt.Sprintf("complete-patterns:%d early-completion:%s", len(cs.complete), early))
+			order, big := "", false
+			for _, e := range cs.events {
+				switch {
+				case e.hidden && e.devHidden:
+					order += "H"
+				case e.hidden:
+					order += "h" // hidden by the caller, echoed by the device
+				case e.resp >= 0:
+					order += "V"
+				default:
+					order += "v" // visible, no expected response: echo not awaited
+				}
+				if len(e.out) > cs.depth {
+					big = true
+				}
+			}
+			if len(order) > 3 {
+				order = order[:3] + "+"
+			}
+			res.Count("order:" + order)
+			if big {
+				res.Count(fmt.Sprintf("event-output>depth dom:%v", allDom))
+			}
+		}
+		if cs.kind == "esc" || cs.kind == "netinter" {
+			res.Count(fmt.Sprintf("tree:%s %s->%s", cs.tree, cs.start, cs.target))
+			res.Count(fmt.Sprintf("%s outcome:%s dom:%v", cs.kind, cs.outcome, allDom))
+		}
+		if cs.kind == "netinter" {
+			res.Count(fmt.Sprintf("netinter via-option:%v", cs.viaOption))
+		}
+		if cs.interim {
+			res.Count(fmt.Sprintf("send interim dom:%v", allDom))
+		}
 		if i%257 == 0 {
 			res.Sample(map[string]any{"case": caseLine, "kind": cs.kind, "events": len(cs.events), "complete": cs.complete, "early_at": cs.earlyAt,
 				"outcome": cs.outcome, "twist": cs.weird, "target": cs.target, "depth": cs.depth, "seg": cs.segClass, "read_size": cs.readSize,
@@ -1036,11 +1488,36 @@ func c12check(c *ctx, cases []c12case) {
 		// oracles that need no model: never gated by exactness nor by the correspondence — a secret
 		// typed at a command prompt, or a hidden input whose echo is awaited, is a violation
 		// whatever the segmentation did
-		if cs.kind == "esc" {
+		if cs.kind == "esc" || cs.kind == "netinter" {
 			c12secretOracle(res, caseLine, cs, o)
 		}
-		if cs.kind == "inter" {
+		if (cs.kind == "inter" || cs.kind == "netinter") && o.main >= 0 {
 			c12hiddenOracle(res, caseLine, cs, o)
+		}
+		if cs.kind == "netinter" {
+			// the events are sent only once the requested level was acquired
+			if _, aerr := c12expectAcquire(cs, c12treeByName(cs.tree)); aerr != "nil" && o.main >= 0 {
+				res.Fail("oracle", caseLine, fmt.Sprintf("the level %s cannot be acquired (expected error class %s) but the dialogue was started: %s", cs.target, aerr, c12join(o.ops[o.main].impl)), "dialogue-without-level")
+			}
+		}
+		if cs.silentAt >= 0 && okAll {
+			c12silentOracle(res, caseLine, cs, o)
+		}
+		if cs.badOpt != "" {
+			// an operation whose options are rejected types nothing of the dialogue
+			wantErr := "badoption"
+			if cs.kind == "netinter" && cs.badOpt == "channel" {
+				// the network driver acquires the level before the channel looks at the options
+				if _, aerr := c12expectAcquire(cs, c12treeByName(cs.tree)); aerr != "nil" {
+					wantErr = aerr
+				}
+			}
+			if o.err != wantErr {
+				res.Fail("oracle", caseLine, fmt.Sprintf("an operation option failed (%s): the operation returned error class %s, expected %s", cs.badOpt, o.err, wantErr), "bad-option:"+o.err)
+			} else if o.typed {
+				res.Fail("oracle", caseLine, fmt.Sprintf("an operation option failed (%s) but part of the dialogue was written", cs.badOpt), "typed-despite-option-error")
+			}
+			continue
 		}
 		// in-domain: the model found every read exact. When the correspondence is broken the model's
 		// judgement is void; the oracles then run on the sessions the generator built without any
@@ -1062,9 +1539,13 @@ func c12check(c *ctx, cases []c12case) {
 		res.InDomain++
 		switch cs.kind {
 		case "inter":
-			c12interOracle(res, caseLine, cs, o, traces)
+			c12interOracle(res, caseLine, cs, o, traces, "prompt:exec")
 		case "esc":
 			c12escOracle(res, caseLine, cs, o, traces)
+		case "netinter":
+			if c12escOracle(res, caseLine, cs, o, traces) && o.main >= 0 {
+				c12interOracle(res, caseLine, cs, o, traces, "prompt:"+cs.target)
+			}
 		case "send":
 			c12sendOracle(res, caseLine, cs, o, traces)
 		}
@@ -1082,7 +1563,7 @@ func c12paced(res *vlib.Result, caseLine string, o c12obs, k int, what string) b
 	return true
 }
 
-func c12interOracle(res *vlib.Result, caseLine string, cs c12case, o c12obs, traces []c12trace) {
+func c12interOracle(res *vlib.Result, caseLine string, cs c12case, o c12obs, traces []c12trace, base string) {
 	op := o.ops[o.main]
 	if op.err != "nil" {
 		res.Fail("oracle", caseLine, "well-formed dialogue returned error class "+op.err, "error:"+op.err)
@@ -1094,7 +1575,7 @@ func c12interOracle(res *vlib.Result, caseLine string, cs c12case, o c12obs, tra
 	var wantStates []string
 	for i, e := range cs.events {
 		want = append(want, []byte(e.input), []byte("\n"))
-		st := "prompt:exec"
+		st := base
 		if i > 0 && cs.events[i-1].ask != "" {
 			st = "ask:" + strconv.Itoa(i-1)
 		}
@@ -1113,8 +1594,14 @@ func c12interOracle(res *vlib.Result, caseLine string, cs c12case, o c12obs, tra
 	// every input arrived in the device state it answers
 	ls := o.lstates
 	ln := o.lines
-	if cs.setup != 1 {
-		ls, ln = ls[1:], ln[1:]
+	before := 0 // complete lines the device received before the operation
+	for _, w := range o.writes[:op.w0] {
+		if string(w.Data) == "\n" {
+			before++
+		}
+	}
+	if before <= len(ls) && before <= len(ln) {
+		ls, ln = ls[before:], ln[before:]
 	}
 	for i := range wantStates {
 		if i >= len(ls) || ls[i].Mode != wantStates[i] || ln[i].Line != cs.events[i].input {
@@ -1145,7 +1632,7 @@ func c12interOracle(res *vlib.Result, caseLine string, cs c12case, o c12obs, tra
 	if cs.setup == 0 {
 		start = o.writes[op.w0].EmittedBefore
 	}
-	if want := c12canon(o.emitted[start:]); cs.setup != 2 && op.result != want {
+	if want := c12canon(o.emitted[start:]); (cs.setup == 0 || cs.setup == 1 && cs.kind == "inter") && op.result != want {
 		res.Fail("oracle", caseLine, fmt.Sprintf("result %q, the whole dialogue is %q", op.result, want), "wrong-result")
 	}
 }
@@ -1210,22 +1697,17 @@ func c12secretOracle(res *vlib.Result, caseLine string, cs c12case, o c12obs) {
 	}
 }
 
-func c12escOracle(res *vlib.Result, caseLine string, cs c12case, o c12obs, traces []c12trace) {
-	wantErr := "nil"
-	wantMode := cs.target
-	switch {
-	case cs.outcome == "refuse" || cs.weird == "denied":
-		wantErr, wantMode = "privilege", "exec"
-	case cs.outcome == "detour-only":
-		wantErr, wantMode = "timeout", "configuration"
-	}
-	if o.err != wantErr {
-		res.Fail("oracle", caseLine, fmt.Sprintf("AcquirePriv(%s) returned error class %s, expected %s (outcome %s twist %q)", cs.target, o.err, wantErr, cs.outcome, cs.weird), "error:"+o.err)
-		return
+// c12escOracle judges the level acquisition of a session (AcquirePriv itself, or the one
+// network.Driver.SendInteractive performs first); true = acquired as the specification says.
+func c12escOracle(res *vlib.Result, caseLine string, cs c12case, o c12obs, traces []c12trace) bool {
+	wantMode, wantErr := c12expectAcquire(cs, c12treeByName(cs.tree))
+	if gotErr := o.err; (cs.kind == "esc" || wantErr != "nil") && gotErr != wantErr {
+		res.Fail("oracle", caseLine, fmt.Sprintf("acquiring %s from %s (tree %s) returned error class %s, expected %s (outcome %s twist %q)", cs.target, cs.start, cs.tree, gotErr, wantErr, cs.outcome, cs.weird), "error:"+gotErr)
+		return false
 	}
 	if o.endMode != wantMode {
-		res.Fail("oracle", caseLine, fmt.Sprintf("device ended in mode %s, expected %s", o.endMode, wantMode), "wrong-mode")
-		return
+		res.Fail("oracle", caseLine, fmt.Sprintf("device ended in mode %s, expected %s (tree %s, %s -> %s)", o.endMode, wantMode, cs.tree, cs.start, cs.target), "wrong-mode")
+		return false
 	}
 	// pacing of every write of every escalation operation but its first
 	for j, op := range o.ops {
@@ -1239,7 +1721,7 @@ func c12escOracle(res *vlib.Result, caseLine string, cs c12case, o c12obs, trace
 			}
 			what := []string{"", "return of the escalate command", "secret", ""}[rel]
 			if !c12paced(res, caseLine, o, k, fmt.Sprintf("%s (operation %d)", what, j)) {
-				return
+				return false
 			}
 		}
 		if traces != nil {
@@ -1249,6 +1731,32 @@ func c12escOracle(res *vlib.Result, caseLine string, cs c12case, o c12obs, trace
 				}
 			}
 		}
+	}
+	return wantErr == "nil"
+}
+
+// c12silentOracle: the device fell silent after event silentAt. The operation must end in a timeout
+// (its own, short one) and nothing may be typed after that event's return.
+func c12silentOracle(res *vlib.Result, caseLine string, cs c12case, o c12obs) {
+	op := o.ops[o.main]
+	var want [][]byte
+	for i, e := range cs.events {
+		want = append(want, []byte(e.input), []byte("\n"))
+		if i == cs.silentAt {
+			break
+		}
+	}
+	if op.err != "timeout" {
+		res.Fail("oracle", caseLine, fmt.Sprintf("the device never answered event %d, the operation returned error class %s", cs.silentAt, op.err), "silent:"+op.err)
+		return
+	}
+	if c12join(op.impl) != c12join(want) {
+		res.Fail("oracle", caseLine, fmt.Sprintf("the device never answered event %d; it received %s, the dialogue allows %s", cs.silentAt, c12join(op.impl), c12join(want)), "typed-into-silence")
+		return
+	}
+	if o.dur > 2*time.Second {
+		// the per-operation timeout (500 ms) was not the one that ended the operation (the driver's is 3 s)
+		res.Fail("oracle", caseLine, fmt.Sprintf("the operation's own timeout of %v was not honoured: the session took %v", c12silentTimeout, o.dur), "op-timeout-ignored")
 	}
 }
 
@@ -1263,5 +1771,14 @@ func c12sendOracle(res *vlib.Result, caseLine string, cs c12case, o c12obs, trac
 		res.Fail("oracle", caseLine, fmt.Sprintf("device received %s, expected %s", c12join(op.impl), c12join(want)), "wrong-device-input")
 		return
 	}
-	c12paced(res, caseLine, o, op.w0+1, "return of the plain command")
+	if !c12paced(res, caseLine, o, op.w0+1, "return of the plain command") {
+		return
+	}
+	// the result of a (non-eager) send is everything the device printed after the return — up to
+	// the prompt, or to the interim prompt the caller declared
+	if !cs.eager {
+		if want := c12canon(o.emitted[o.writes[op.w0+1].EmittedBefore:]); op.result != want {
+			res.Fail("oracle", caseLine, fmt.Sprintf("result %q, the device answered %q (interim prompt: %v)", op.result, want, cs.interim), "wrong-result")
+		}
+	}
 }
